@@ -53,6 +53,8 @@ class Injector:
         self.converted = False
         self.where = ""
         self.lines = 0
+        self.target = ""
+        self.disk_at_fault: Optional[bytes] = None
         self.restore: List[Any] = []
 
     # ---- call-level sites
@@ -65,6 +67,7 @@ class Injector:
             armed = injector.armed
             if armed and armed["type"] == "call" and armed["site"] == name and armed["index"] == index:
                 injector.fired = True
+                injector.disk_at_fault = _read(injector.target)   # what a process death right here would leave
                 raise _exc(armed["kind"])
             value = original(*args, **kwargs)
             if armed and armed["type"] == "poison" and armed["site"] == name and armed["index"] == index:
@@ -168,6 +171,7 @@ class Injector:
             if armed and armed["type"] == "line" and armed["index"] == index and not self.fired:
                 self.fired = True
                 self.where = f"{os.path.basename(frame.f_code.co_filename)}:{frame.f_lineno}:{frame.f_code.co_name}"
+                self.disk_at_fault = _read(self.target)
                 raise _exc(armed["kind"])
         return self._local
 
@@ -178,6 +182,7 @@ class Injector:
         self.fired = False
         self.where = ""
         self.converted = False
+        self.disk_at_fault = None
 
 
 def _read(path: str) -> Optional[bytes]:
@@ -224,6 +229,8 @@ def fault_loop(results: Any, path: str, plan: Dict[str, Any], events: List[Any])
         target = path + ".records.json"
         serialiser.dump_records(results.results, results.records, target)
 
+    injector.target = target
+
     def write() -> None:
         if entry == "dump_records":
             serialiser.dump_records(results.results, results.records, target)
@@ -267,7 +274,8 @@ def fault_loop(results: Any, path: str, plan: Dict[str, Any], events: List[Any])
             outcome = f"raised:{type(err).__name__}"
         after = _read(target)
         record = {"fault": fault, "fired": injector.fired, "outcome": outcome, "unchanged": after == before,
-                  "where": injector.where}
+                  "where": injector.where,
+                  "crash_safe": fault["type"] == "poison" or not injector.fired or injector.disk_at_fault == before}
         if after != before:
             try:
                 json.loads(after or b"")
@@ -464,6 +472,12 @@ class WriteFaults(Engine):
                 trace.append([fault, record["outcome"], record["unchanged"]])
                 where = fault.get("site") or record.get("where")
                 position = f"{fault['type']} fault at {where}#{fault.get('index')} ({fault.get('kind') or fault.get('poison')})"
+                if not record.get("crash_safe", True):
+                    res.violate("C20-b", f"{position} during {control['entry']}: at the instant of the fault the existing "
+                                "results file had already been modified (a crash at this point loses the previous results)",
+                                sig=f"C20-b:modified-before-fault:{fault['type']}", fault=fault)
+                    break
+                res.probe("crash_points_checked")
                 if record["outcome"] == "returned":
                     if fault["type"] == "line" and (record["unchanged"] or record.get("after_valid_json")):
                         res.probe("line_fault_handled_by_code")
@@ -810,7 +824,7 @@ class WriteFaults(Engine):
         return view
 
 
-EXPECTED_PROBES = ["conversion_positions", "conversion_line_events", "refusal_expected", "refused_and_untouched", "accepted",
+EXPECTED_PROBES = ["conversion_positions", "conversion_line_events", "crash_points_checked", "refusal_expected", "refused_and_untouched", "accepted",
                    "recovered_after_failed_run", "directory_with_entries"]
 
 ENGINE = WriteFaults()
